@@ -1,7 +1,789 @@
-//! C32 — not implemented yet.
-use vmon::report::Args;
+//! C32 — metadata serialisation round trips: decode(encode(x)) == x through the real conversions.
+//!
+//! Equality = the type's own `PartialEq` plus field-wise comparison where that is deliberately
+//! loose (`Schema` ignores metadata, `Operation` ignores vector order). Pure generators; the
+//! object-store parts (manifest files, deletion files) are separate async functions.
+use crate::common::*;
+use arrow_schema::{DataType, Field as AField, Schema as ASchema};
+use lance::dataset::refs::{BranchContents, TagContents};
+use lance::dataset::transaction::{
+    DataReplacementGroup, Operation, RewriteGroup, RewrittenIndex, Transaction, UpdateMap, UpdateMapEntry, UpdateMode,
+};
+use lance_core::datatypes::Schema;
+use lance_core::utils::deletion::DeletionVector;
+use lance_encoding::version::LanceFileVersion;
+use lance_index::mem_wal::{MemWal, MemWalId, MemWalIndexDetails, State};
+use lance_io::object_store::ObjectStore;
+use lance_table::format::pb;
+use lance_table::format::{
+    BasePath, DataFile, DataStorageFormat, DeletionFile, DeletionFileType, ExternalFile, Fragment, IndexMetadata, Manifest, RowIdMeta, WriterVersion,
+};
+use lance_table::io::commit::{write_manifest_file_to_path, ManifestLocation, ManifestNamingScheme};
+use lance_table::io::deletion::{read_deletion_file, write_deletion_file};
+use lance_table::io::manifest::{read_manifest, read_manifest_indexes};
+use lance_table::rowids::segment::U64Segment;
+use lance_table::rowids::version::{
+    read_dataset_versions, write_dataset_versions, RowDatasetVersionMeta, RowDatasetVersionRun, RowDatasetVersionSequence,
+};
+use lance_table::rowids::{read_row_ids, write_row_ids, RowIdSequence};
+use object_store::path::Path;
+use prost::Message;
+use serde_json::{json, Value};
+use std::collections::{BTreeSet, HashMap};
+use std::num::NonZero;
+use std::sync::atomic::{AtomicBool, Ordering};
+use std::sync::Arc;
+use vmon::prng::Rng;
+use vmon::report::{Args, Report};
 
-pub fn run(_args: &Args) -> i32 {
-    eprintln!("HARNESS-ERROR C32 not implemented");
-    2
+type Fail = (String, String);
+
+/// selftest: drop one optional field of the decoded value before the oracle compares
+static CORRUPT_DECODED: AtomicBool = AtomicBool::new(false);
+
+// ------------------------------------------------------------------------------------------
+// generators
+
+fn g_str(rng: &mut Rng) -> String {
+    (*rng.pick(&["a", "data/0001.lance", "ünï-cødé", "with space", "x", "k=v;w", "0", "very/long/path/segment/that/goes/on/and/on.lance"])).to_string()
 }
+fn g_nonempty(rng: &mut Rng) -> String {
+    format!("{}{}", g_str(rng), rng.below(1000))
+}
+fn g_u64(rng: &mut Rng) -> u64 {
+    match rng.below(6) {
+        0 => 0,
+        1 => 1,
+        2 => u32::MAX as u64 + rng.below(3),
+        3 => u64::MAX - rng.below(3),
+        4 => rng.below(1000),
+        _ => rng.next_u64(),
+    }
+}
+fn g_u32(rng: &mut Rng) -> u32 {
+    match rng.below(4) {
+        0 => 0,
+        1 => u32::MAX - rng.below(2) as u32,
+        _ => rng.below(100_000) as u32,
+    }
+}
+fn g_map(rng: &mut Rng) -> HashMap<String, String> {
+    let mut m = HashMap::new();
+    for _ in 0..rng.below(4) {
+        m.insert(g_nonempty(rng), g_str(rng));
+    }
+    m
+}
+fn g_opt<T>(rng: &mut Rng, f: impl FnOnce(&mut Rng) -> T) -> Option<T> {
+    if rng.bool() {
+        Some(f(rng))
+    } else {
+        None
+    }
+}
+
+fn g_schema(rng: &mut Rng, with_meta: bool) -> Schema {
+    let n = rng.urange(1, 4);
+    let mut fields = vec![];
+    for i in 0..n {
+        let dt = match rng.below(5) {
+            0 => DataType::Int64,
+            1 => DataType::Utf8,
+            2 => DataType::Struct(vec![AField::new("x", DataType::Int32, true), AField::new("y.z", DataType::Float32, false)].into()),
+            3 => DataType::List(Arc::new(AField::new("item", DataType::Utf8, true))),
+            _ => DataType::FixedSizeList(Arc::new(AField::new("item", DataType::Float32, true)), 4),
+        };
+        let mut f = AField::new(format!("c{i}"), dt, rng.bool());
+        if rng.chance(1, 3) {
+            f = f.with_metadata(g_map(rng));
+        }
+        fields.push(f);
+    }
+    let meta = if with_meta { g_map(rng) } else { HashMap::new() };
+    Schema::try_from(&ASchema::new_with_metadata(fields, meta)).unwrap()
+}
+
+fn g_external(rng: &mut Rng) -> ExternalFile {
+    ExternalFile { path: g_nonempty(rng), offset: g_u64(rng), size: g_u64(rng) }
+}
+
+fn g_segment(rng: &mut Rng) -> U64Segment {
+    match rng.below(4) {
+        0 => {
+            let a = g_u64(rng) / 2;
+            U64Segment::Range(a..a + rng.below(1000))
+        }
+        _ => {
+            let n = rng.urange(0, 40);
+            let mut x = rng.below(1 << 40);
+            let lim = *rng.pick(&[1u64, 3, 70_000]);
+            let step = 1 + rng.below(lim);
+            let mut v = vec![];
+            for _ in 0..n {
+                v.push(x);
+                x += 1 + rng.below(step);
+            }
+            if rng.chance(1, 4) {
+                rng.shuffle(&mut v);
+            }
+            U64Segment::from_slice(&v)
+        }
+    }
+}
+
+fn g_versions(rng: &mut Rng) -> RowDatasetVersionSequence {
+    let n_runs = if rng.chance(1, 5) { 60 } else { 5 };
+    let runs = (0..rng.below(n_runs)).map(|_| RowDatasetVersionRun { span: g_segment(rng), version: g_u64(rng) }).collect();
+    RowDatasetVersionSequence { runs }
+}
+
+fn g_version_meta(rng: &mut Rng) -> RowDatasetVersionMeta {
+    if rng.chance(1, 4) {
+        RowDatasetVersionMeta::External(g_external(rng))
+    } else {
+        RowDatasetVersionMeta::Inline(write_dataset_versions(&g_versions(rng)))
+    }
+}
+
+fn g_datafile(rng: &mut Rng) -> DataFile {
+    let n = rng.urange(0, 5);
+    let fields: Vec<i32> = (0..n).map(|_| *rng.pick(&[0i32, 1, 7, -2, i32::MAX, 1000])).collect();
+    let cols: Vec<i32> = if rng.bool() { vec![] } else { (0..n).map(|_| *rng.pick(&[0i32, 1, -1, 9])).collect() };
+    let (ma, mi) = *rng.pick(&[(0u32, 2u32), (2, 0), (2, 1), (2, 2), (0, 3)]);
+    DataFile::new(g_nonempty(rng), fields, cols, ma, mi, g_opt(rng, |r| NonZero::new(g_u64(r).max(1)).unwrap()), g_opt(rng, g_u32))
+}
+
+fn g_deletion_file(rng: &mut Rng) -> DeletionFile {
+    DeletionFile {
+        read_version: g_u64(rng),
+        id: g_u64(rng),
+        file_type: if rng.bool() { DeletionFileType::Array } else { DeletionFileType::Bitmap },
+        num_deleted_rows: g_opt(rng, |r| r.below(1 << 40) as usize),
+        base_id: g_opt(rng, g_u32),
+    }
+}
+
+fn g_fragment(rng: &mut Rng) -> Fragment {
+    let mut f = Fragment::new(g_u64(rng));
+    for _ in 0..rng.below(4) {
+        f.files.push(g_datafile(rng));
+    }
+    f.deletion_file = g_opt(rng, g_deletion_file);
+    f.row_id_meta = g_opt(rng, |r| {
+        if r.chance(1, 4) {
+            RowIdMeta::External(g_external(r))
+        } else {
+            RowIdMeta::Inline(write_row_ids(&g_rowids(r)))
+        }
+    });
+    f.physical_rows = g_opt(rng, |r| 1 + r.below(1 << 33) as usize);
+    f.last_updated_at_version_meta = g_opt(rng, g_version_meta);
+    f.created_at_version_meta = g_opt(rng, g_version_meta);
+    f
+}
+
+fn g_frags(rng: &mut Rng) -> Vec<Fragment> {
+    (0..rng.below(4)).map(|_| g_fragment(rng)).collect()
+}
+
+fn g_rowids(rng: &mut Rng) -> RowIdSequence {
+    let mut s = RowIdSequence::new();
+    for _ in 0..rng.urange(0, 4) {
+        let seg = g_segment(rng);
+        let v: Vec<u64> = seg.iter().collect();
+        s.extend(RowIdSequence::from(v.as_slice()));
+    }
+    s
+}
+
+/// prost_types::Any without naming the crate: field 1 = type_url, field 2 = value
+fn g_any_bytes(rng: &mut Rng) -> Vec<u8> {
+    let url = format!("/lance.table.{}", g_nonempty(rng)).replace(' ', "_");
+    let vl = rng.usize_below(20);
+    let val = rng.bytes(vl);
+    let mut out = vec![0x0A, url.len() as u8];
+    out.extend(url.as_bytes());
+    out.push(0x12);
+    out.push(val.len() as u8);
+    out.extend(val);
+    out
+}
+
+fn g_uuid(rng: &mut Rng) -> uuid::Uuid {
+    let b = rng.bytes(16);
+    let mut a = [0u8; 16];
+    a.copy_from_slice(&b);
+    uuid::Builder::from_random_bytes(a).into_uuid()
+}
+
+fn g_index(rng: &mut Rng) -> IndexMetadata {
+    IndexMetadata {
+        uuid: g_uuid(rng),
+        fields: (0..rng.below(3)).map(|_| rng.below(100) as i32).collect(),
+        name: g_str(rng),
+        dataset_version: g_u64(rng),
+        fragment_bitmap: g_opt(rng, |r| (0..r.below(6)).map(|_| g_u32(r)).collect()),
+        index_details: g_opt(rng, |r| Arc::new(Message::decode(&g_any_bytes(r)[..]).unwrap())),
+        index_version: *rng.pick(&[0i32, 1, 3, i32::MAX]),
+        // stored with millisecond precision
+        created_at: g_opt(rng, |r| chrono::DateTime::from_timestamp_millis(r.below(4_000_000_000_000) as i64).unwrap()),
+        base_id: g_opt(rng, g_u32),
+    }
+}
+
+fn g_base_path(rng: &mut Rng, id: u32) -> BasePath {
+    BasePath::new(id, format!("s3://bucket/{}", g_nonempty(rng)), g_opt(rng, g_nonempty), rng.bool())
+}
+
+fn g_memwal(rng: &mut Rng) -> MemWal {
+    MemWal {
+        id: MemWalId::new(&g_str(rng), g_u64(rng)),
+        mem_table_location: g_str(rng),
+        wal_location: g_str(rng),
+        wal_entries: pb::U64Segment::from(g_segment(rng)).encode_to_vec(),
+        state: rng.pick(&[State::Open, State::Sealed, State::Flushed, State::Merged]).clone(),
+        owner_id: g_str(rng),
+        last_updated_dataset_version: g_u64(rng),
+    }
+}
+
+fn g_update_map(rng: &mut Rng) -> UpdateMap {
+    UpdateMap {
+        update_entries: (0..rng.below(4)).map(|_| UpdateMapEntry { key: g_nonempty(rng), value: g_opt(rng, g_str) }).collect(),
+        replace: rng.bool(),
+    }
+}
+
+const N_OPS: u64 = 15;
+
+fn g_operation(rng: &mut Rng, which: u64) -> (&'static str, Operation) {
+    match which % N_OPS {
+        0 => ("Append", Operation::Append { fragments: g_frags(rng) }),
+        1 => ("Delete", Operation::Delete { updated_fragments: g_frags(rng), deleted_fragment_ids: (0..rng.below(4)).map(|_| g_u64(rng)).collect(), predicate: g_str(rng) }),
+        2 => (
+            "Overwrite",
+            Operation::Overwrite {
+                fragments: g_frags(rng),
+                schema: g_schema(rng, true),
+                config_upsert_values: g_opt(rng, |r| {
+                    let mut m = g_map(r);
+                    m.insert("k".into(), "v".into());
+                    m
+                }),
+                initial_bases: g_opt(rng, |r| (1..=1 + r.below(3) as u32).map(|i| g_base_path(r, i)).collect()),
+            },
+        ),
+        3 => ("CreateIndex", Operation::CreateIndex { new_indices: (0..rng.below(3)).map(|_| g_index(rng)).collect(), removed_indices: (0..rng.below(3)).map(|_| g_index(rng)).collect() }),
+        4 => (
+            "Rewrite",
+            Operation::Rewrite {
+                groups: (0..1 + rng.below(3)).map(|_| RewriteGroup { old_fragments: g_frags(rng), new_fragments: g_frags(rng) }).collect(),
+                rewritten_indices: (0..rng.below(3))
+                    .map(|_| RewrittenIndex { old_id: g_uuid(rng), new_id: g_uuid(rng), new_index_details: Message::decode(&g_any_bytes(rng)[..]).unwrap(), new_index_version: g_u32(rng) })
+                    .collect(),
+                frag_reuse_index: g_opt(rng, g_index),
+            },
+        ),
+        5 => ("DataReplacement", Operation::DataReplacement { replacements: (0..rng.below(4)).map(|_| DataReplacementGroup(g_u64(rng), g_datafile(rng))).collect() }),
+        6 => ("Merge", Operation::Merge { fragments: g_frags(rng), schema: g_schema(rng, true) }),
+        7 => ("Restore", Operation::Restore { version: g_u64(rng) }),
+        8 => ("ReserveFragments", Operation::ReserveFragments { num_fragments: g_u32(rng) }),
+        9 => (
+            "Update",
+            Operation::Update {
+                removed_fragment_ids: (0..rng.below(4)).map(|_| g_u64(rng)).collect(),
+                updated_fragments: g_frags(rng),
+                new_fragments: g_frags(rng),
+                fields_modified: (0..rng.below(4)).map(|_| g_u32(rng)).collect(),
+                mem_wal_to_merge: g_opt(rng, g_memwal),
+                fields_for_preserving_frag_bitmap: (0..rng.below(4)).map(|_| g_u32(rng)).collect(),
+                update_mode: match rng.below(3) {
+                    0 => None,
+                    1 => Some(UpdateMode::RewriteRows),
+                    _ => Some(UpdateMode::RewriteColumns),
+                },
+            },
+        ),
+        10 => ("Project", Operation::Project { schema: g_schema(rng, true) }),
+        11 => (
+            "UpdateConfig",
+            Operation::UpdateConfig {
+                config_updates: g_opt(rng, g_update_map),
+                table_metadata_updates: g_opt(rng, g_update_map),
+                schema_metadata_updates: g_opt(rng, g_update_map),
+                field_metadata_updates: (0..rng.below(3)).map(|_| (rng.below(50) as i32, g_update_map(rng))).collect(),
+            },
+        ),
+        12 => ("UpdateMemWalState", Operation::UpdateMemWalState { added: (0..rng.below(3)).map(|_| g_memwal(rng)).collect(), updated: (0..rng.below(3)).map(|_| g_memwal(rng)).collect(), removed: (0..rng.below(3)).map(|_| g_memwal(rng)).collect() }),
+        13 => ("Clone", Operation::Clone { is_shallow: rng.bool(), ref_name: g_opt(rng, g_nonempty), ref_version: g_u64(rng), ref_path: g_str(rng), branch_name: g_opt(rng, g_nonempty) }),
+        _ => ("UpdateBases", Operation::UpdateBases { new_bases: (1..=1 + rng.below(3) as u32).map(|i| g_base_path(rng, i)).collect() }),
+    }
+}
+
+fn g_manifest(rng: &mut Rng) -> Manifest {
+    let mut frags = g_frags(rng);
+    let stable = rng.chance(1, 3);
+    if stable {
+        for f in frags.iter_mut() {
+            if f.row_id_meta.is_none() {
+                f.row_id_meta = Some(RowIdMeta::Inline(write_row_ids(&g_rowids(rng))));
+            }
+        }
+    }
+    let mut base_paths = HashMap::new();
+    for i in 0..rng.below(3) as u32 {
+        base_paths.insert(i + 1, g_base_path(rng, i + 1));
+    }
+    let ver = *rng.pick(&[LanceFileVersion::Legacy, LanceFileVersion::V2_0, LanceFileVersion::V2_1, LanceFileVersion::V2_2]);
+    let mut m = Manifest::new(g_schema(rng, true), Arc::new(frags), DataStorageFormat::new(ver), base_paths);
+    m.version = match rng.below(4) {
+        0 => 1,
+        1 => lance_table::format::DETACHED_VERSION_MASK | (rng.next_u64() >> 1), // detached
+        _ => g_u64(rng) >> 1,
+    };
+    m.branch = g_opt(rng, g_nonempty);
+    m.writer_version = g_opt(rng, |r| WriterVersion { library: "lance".into(), version: format!("{}.{}.{}", r.below(3), r.below(50), r.below(9)), prerelease: g_opt(r, g_nonempty), build_metadata: g_opt(r, g_nonempty) });
+    m.version_aux_data = rng.below(1 << 40) as usize;
+    // nanosecond precision timestamps (0 means "not set")
+    m.timestamp_nanos = if rng.chance(1, 6) { 0 } else { rng.below(4_000_000_000) as u128 * 1_000_000_000 + rng.below(1_000_000_000) as u128 };
+    m.tag = g_opt(rng, g_nonempty);
+    m.reader_feature_flags = if stable { 2 } else { 0 } | (rng.below(2) * 1) | (rng.below(2) * 16);
+    m.writer_feature_flags = rng.below(64);
+    m.max_fragment_id = g_opt(rng, g_u32);
+    m.transaction_file = g_opt(rng, g_nonempty);
+    m.next_row_id = g_u64(rng);
+    m.config = g_map(rng);
+    m.table_metadata = g_map(rng);
+    m
+}
+
+// ------------------------------------------------------------------------------------------
+// comparisons
+
+fn schema_eq(a: &Schema, b: &Schema) -> Option<&'static str> {
+    if a != b {
+        return Some("schema-fields");
+    }
+    if a.metadata != b.metadata {
+        return Some("schema-metadata");
+    }
+    None
+}
+
+/// field-wise, order-sensitive comparison of operations (the type's `==` ignores vector order)
+fn op_diff(a: &Operation, b: &Operation) -> Vec<String> {
+    let mut out: Vec<String> = vec![];
+    use Operation::*;
+    macro_rules! cmp {
+        ($($name:literal : $x:expr , $y:expr);* $(;)?) => {{ $( if $x != $y { out.push($name.to_string()); } )* }};
+    }
+    match (a, b) {
+        (Append { fragments: x }, Append { fragments: y }) => cmp!("fragments": x, y),
+        (Delete { updated_fragments: a1, deleted_fragment_ids: a2, predicate: a3 }, Delete { updated_fragments: b1, deleted_fragment_ids: b2, predicate: b3 }) => {
+            cmp!("updated_fragments": a1, b1; "deleted_fragment_ids": a2, b2; "predicate": a3, b3)
+        }
+        (Overwrite { fragments: a1, schema: a2, config_upsert_values: a3, initial_bases: a4 }, Overwrite { fragments: b1, schema: b2, config_upsert_values: b3, initial_bases: b4 }) => {
+            cmp!("fragments": a1, b1; "config_upsert_values": a3, b3; "initial_bases": a4, b4);
+            if let Some(d) = schema_eq(a2, b2) {
+                out.push(d.to_string());
+            }
+        }
+        (CreateIndex { new_indices: a1, removed_indices: a2 }, CreateIndex { new_indices: b1, removed_indices: b2 }) => cmp!("new_indices": a1, b1; "removed_indices": a2, b2),
+        (Rewrite { groups: a1, rewritten_indices: a2, frag_reuse_index: a3 }, Rewrite { groups: b1, rewritten_indices: b2, frag_reuse_index: b3 }) => {
+            cmp!("rewritten_indices": a2, b2; "frag_reuse_index": a3, b3);
+            if a1.len() != b1.len() || a1.iter().zip(b1).any(|(x, y)| x.old_fragments != y.old_fragments || x.new_fragments != y.new_fragments) {
+                out.push("groups".into());
+            }
+        }
+        (DataReplacement { replacements: x }, DataReplacement { replacements: y }) => cmp!("replacements": x, y),
+        (Merge { fragments: a1, schema: a2 }, Merge { fragments: b1, schema: b2 }) => {
+            cmp!("fragments": a1, b1);
+            if let Some(d) = schema_eq(a2, b2) {
+                out.push(d.to_string());
+            }
+        }
+        (Restore { version: x }, Restore { version: y }) => cmp!("version": x, y),
+        (ReserveFragments { num_fragments: x }, ReserveFragments { num_fragments: y }) => cmp!("num_fragments": x, y),
+        (
+            Update { removed_fragment_ids: a1, updated_fragments: a2, new_fragments: a3, fields_modified: a4, mem_wal_to_merge: a5, fields_for_preserving_frag_bitmap: a6, update_mode: a7 },
+            Update { removed_fragment_ids: b1, updated_fragments: b2, new_fragments: b3, fields_modified: b4, mem_wal_to_merge: b5, fields_for_preserving_frag_bitmap: b6, update_mode: b7 },
+        ) => cmp!("removed_fragment_ids": a1, b1; "updated_fragments": a2, b2; "new_fragments": a3, b3; "fields_modified": a4, b4; "mem_wal_to_merge": a5, b5;
+                  "fields_for_preserving_frag_bitmap": a6, b6; "update_mode": a7, b7),
+        (Project { schema: x }, Project { schema: y }) => {
+            if let Some(d) = schema_eq(x, y) {
+                out.push(d.to_string());
+            }
+        }
+        (
+            UpdateConfig { config_updates: a1, table_metadata_updates: a2, schema_metadata_updates: a3, field_metadata_updates: a4 },
+            UpdateConfig { config_updates: b1, table_metadata_updates: b2, schema_metadata_updates: b3, field_metadata_updates: b4 },
+        ) => cmp!("config_updates": a1, b1; "table_metadata_updates": a2, b2; "schema_metadata_updates": a3, b3; "field_metadata_updates": a4, b4),
+        (UpdateMemWalState { added: a1, updated: a2, removed: a3 }, UpdateMemWalState { added: b1, updated: b2, removed: b3 }) => cmp!("added": a1, b1; "updated": a2, b2; "removed": a3, b3),
+        (Clone { is_shallow: a1, ref_name: a2, ref_version: a3, ref_path: a4, branch_name: a5 }, Clone { is_shallow: b1, ref_name: b2, ref_version: b3, ref_path: b4, branch_name: b5 }) => {
+            cmp!("is_shallow": a1, b1; "ref_name": a2, b2; "ref_version": a3, b3; "ref_path": a4, b4; "branch_name": a5, b5)
+        }
+        (UpdateBases { new_bases: x }, UpdateBases { new_bases: y }) => cmp!("new_bases": x, y),
+        _ => out.push("variant".into()),
+    }
+    out
+}
+
+// ------------------------------------------------------------------------------------------
+// pure round trips
+
+fn rt_fragment(rng: &mut Rng) -> Result<(), Fail> {
+    let f = g_fragment(rng);
+    let p = pb::DataFragment::from(&f);
+    let bytes = p.encode_to_vec();
+    let p2 = pb::DataFragment::decode(&bytes[..]).map_err(|e| ("fragment:pb-decode-error".to_string(), e.to_string()))?;
+    let mut back = Fragment::try_from(p2).map_err(|e| ("fragment:try_from-error".to_string(), e.to_string()))?;
+    if CORRUPT_DECODED.load(Ordering::Relaxed) {
+        back.physical_rows = None;
+        back.deletion_file = None;
+    }
+    if back != f {
+        let field = if back.files != f.files {
+            "files"
+        } else if back.deletion_file != f.deletion_file {
+            "deletion_file"
+        } else if back.row_id_meta != f.row_id_meta {
+            "row_id_meta"
+        } else if back.physical_rows != f.physical_rows {
+            "physical_rows"
+        } else if back.last_updated_at_version_meta != f.last_updated_at_version_meta {
+            "last_updated_at_version_meta"
+        } else if back.created_at_version_meta != f.created_at_version_meta {
+            "created_at_version_meta"
+        } else {
+            "id"
+        };
+        return Err((format!("fragment:field-lost:{field}"), format!("{f:?} -> {back:?}").chars().take(600).collect()));
+    }
+    Ok(())
+}
+
+fn rt_index(rng: &mut Rng) -> Result<(), Fail> {
+    let x = g_index(rng);
+    let bytes = pb::IndexMetadata::from(&x).encode_to_vec();
+    let p2 = pb::IndexMetadata::decode(&bytes[..]).map_err(|e| ("index:pb-decode-error".to_string(), e.to_string()))?;
+    let back = IndexMetadata::try_from(p2).map_err(|e| ("index:try_from-error".to_string(), e.to_string()))?;
+    if back != x {
+        let field = if back.fragment_bitmap != x.fragment_bitmap {
+            "fragment_bitmap"
+        } else if back.index_details != x.index_details {
+            "index_details"
+        } else if back.created_at != x.created_at {
+            "created_at"
+        } else if back.base_id != x.base_id {
+            "base_id"
+        } else {
+            "other"
+        };
+        return Err((format!("index:field-lost:{field}"), format!("{x:?} -> {back:?}").chars().take(600).collect()));
+    }
+    Ok(())
+}
+
+fn rt_transaction(rng: &mut Rng, which: u64) -> Result<(&'static str, Vec<Fail>), Fail> {
+    let (name, op) = g_operation(rng, which);
+    let t = Transaction {
+        read_version: g_u64(rng),
+        uuid: g_uuid(rng).to_string(),
+        operation: op,
+        tag: g_opt(rng, g_nonempty),
+        transaction_properties: g_opt(rng, |r| {
+            let mut m = g_map(r);
+            m.insert("p".into(), "q".into());
+            Arc::new(m)
+        }),
+    };
+    let bytes = pb::Transaction::from(&t).encode_to_vec();
+    let p2 = pb::Transaction::decode(&bytes[..]).map_err(|e| (format!("transaction:{name}:pb-decode-error"), e.to_string()))?;
+    let back = Transaction::try_from(p2).map_err(|e| (format!("transaction:{name}:try_from-error"), e.to_string()))?;
+    let brief = |t: &Transaction| format!("{t:?}").chars().take(500).collect::<String>();
+    if back.read_version != t.read_version || back.uuid != t.uuid {
+        return Err((format!("transaction:{name}:field-lost:read_version-or-uuid"), brief(&back)));
+    }
+    if back.tag != t.tag {
+        return Err((format!("transaction:{name}:field-lost:tag"), format!("{:?} -> {:?}", t.tag, back.tag)));
+    }
+    if back.transaction_properties != t.transaction_properties {
+        return Err((format!("transaction:{name}:field-lost:transaction_properties"), String::new()));
+    }
+    let diffs = op_diff(&t.operation, &back.operation);
+    let fails: Vec<Fail> = diffs.iter().map(|d| (format!("transaction:{name}:field-lost:{d}"), format!("{} -> {}", brief(&t), brief(&back)))).collect();
+    if diffs.is_empty() && back != t {
+        return Err((format!("transaction:{name}:not-equal"), brief(&back)));
+    }
+    Ok((name, fails))
+}
+
+fn rt_manifest_pb(rng: &mut Rng) -> Result<(), Fail> {
+    let m = g_manifest(rng);
+    let bytes = pb::Manifest::from(&m).encode_to_vec();
+    let p2 = pb::Manifest::decode(&bytes[..]).map_err(|e| ("manifest:pb-decode-error".to_string(), e.to_string()))?;
+    let back = Manifest::try_from(p2).map_err(|e| ("manifest:try_from-error".to_string(), e.to_string()))?;
+    manifest_diff(&m, &back).map_or(Ok(()), |d| Err((format!("manifest:field-lost:{d}"), format!("{:?} vs {:?}", m.version, back.version))))
+}
+
+fn manifest_diff(m: &Manifest, back: &Manifest) -> Option<String> {
+    macro_rules! c {
+        ($($f:ident),*) => {{ $( if m.$f != back.$f { return Some(stringify!($f).to_string()); } )* }};
+    }
+    if let Some(d) = schema_eq(&m.schema, &back.schema) {
+        return Some(d.to_string());
+    }
+    c!(version, branch, writer_version, fragments, version_aux_data, timestamp_nanos, tag, reader_feature_flags, writer_feature_flags, max_fragment_id,
+       transaction_file, next_row_id, data_storage_format, config, table_metadata, base_paths);
+    None
+}
+
+fn rt_rowids(rng: &mut Rng) -> Result<(), Fail> {
+    let s = g_rowids(rng);
+    let back = read_row_ids(&write_row_ids(&s)).map_err(|e| ("rowids:read-error".to_string(), e.to_string()))?;
+    if back != s || !back.iter().eq(s.iter()) {
+        return Err(("rowids:differs".into(), format!("{s:?}").chars().take(300).collect()));
+    }
+    Ok(())
+}
+
+fn rt_versions(rng: &mut Rng) -> Result<(), Fail> {
+    let s = g_versions(rng);
+    let bytes = write_dataset_versions(&s);
+    let back = read_dataset_versions(&bytes).map_err(|e| ("versions:read-error".to_string(), e.to_string()))?;
+    if back != s {
+        return Err(("versions:differs".into(), format!("{} runs -> {}", s.runs.len(), back.runs.len())));
+    }
+    if !back.versions().eq(s.versions()) || back.len() != s.len() {
+        return Err(("versions:expanded-sequence-differs".into(), String::new()));
+    }
+    let meta = RowDatasetVersionMeta::from_sequence(&s).map_err(|e| ("versions:meta-error".to_string(), e.to_string()))?;
+    let loaded = meta.load_sequence().map_err(|e| ("versions:meta-load-error".to_string(), e.to_string()))?;
+    if loaded != s {
+        return Err(("versions:meta-differs".into(), String::new()));
+    }
+    Ok(())
+}
+
+fn rt_memwal(rng: &mut Rng) -> Result<(), Fail> {
+    let d = MemWalIndexDetails { mem_wal_list: (0..rng.below(5)).map(|_| g_memwal(rng)).collect() };
+    let bytes = pb::MemWalIndexDetails::from(&d).encode_to_vec();
+    let p2 = pb::MemWalIndexDetails::decode(&bytes[..]).map_err(|e| ("memwal:pb-decode-error".to_string(), e.to_string()))?;
+    let back = MemWalIndexDetails::try_from(p2).map_err(|e| ("memwal:try_from-error".to_string(), e.to_string()))?;
+    if back != d {
+        return Err(("memwal:differs".into(), format!("{d:?} -> {back:?}").chars().take(500).collect()));
+    }
+    Ok(())
+}
+
+fn rt_refs(rng: &mut Rng) -> Result<(), Fail> {
+    let t = TagContents { branch: g_opt(rng, g_nonempty), version: g_u64(rng), manifest_size: rng.below(1 << 50) as usize };
+    let js = serde_json::to_string_pretty(&t).map_err(|e| ("tag:serialize-error".to_string(), e.to_string()))?;
+    let b: TagContents = serde_json::from_str(&js).map_err(|e| ("tag:deserialize-error".to_string(), e.to_string()))?;
+    if b.branch != t.branch || b.version != t.version || b.manifest_size != t.manifest_size {
+        return Err(("tag:differs".into(), js));
+    }
+    let c = BranchContents { parent_branch: g_opt(rng, g_nonempty), parent_version: g_u64(rng), create_at: g_u64(rng), manifest_size: rng.below(1 << 50) as usize };
+    let js = serde_json::to_string_pretty(&c).map_err(|e| ("branch:serialize-error".to_string(), e.to_string()))?;
+    let b: BranchContents = serde_json::from_str(&js).map_err(|e| ("branch:deserialize-error".to_string(), e.to_string()))?;
+    if b.parent_branch != c.parent_branch || b.parent_version != c.parent_version || b.create_at != c.create_at || b.manifest_size != c.manifest_size {
+        return Err(("branch:differs".into(), js));
+    }
+    Ok(())
+}
+
+// ------------------------------------------------------------------------------------------
+// object-store round trips
+
+async fn rt_manifest_file(rng: &mut Rng, store: &ObjectStore, n: u64) -> Result<(), Fail> {
+    let mut m = g_manifest(rng);
+    let indices: Option<Vec<IndexMetadata>> = g_opt(rng, |r| (0..r.below(4)).map(|_| g_index(r)).collect());
+    let which = rng.below(N_OPS);
+    let (tname, op) = g_operation(rng, which);
+    let txn = if rng.bool() {
+        Some(Transaction { read_version: g_u64(rng), uuid: g_uuid(rng).to_string(), operation: op, tag: None, transaction_properties: None })
+    } else {
+        None
+    };
+    let path = Path::from(format!("c32/{n}.manifest"));
+    let wire_txn = txn.as_ref().map(lance_table::format::Transaction::from);
+    let before = m.clone();
+    write_manifest_file_to_path(store, &mut m, indices.clone(), &path, wire_txn)
+        .await
+        .map_err(|e| ("manifest-file:write-error".to_string(), e.to_string()))?;
+    let back = read_manifest(store, &path, None).await.map_err(|e| ("manifest-file:read-error".to_string(), e.to_string()))?;
+    if let Some(d) = manifest_diff(&before, &back) {
+        return Err((format!("manifest-file:field-lost:{d}"), format!("version {}", before.version)));
+    }
+    if back.index_section != m.index_section || back.transaction_section != m.transaction_section {
+        return Err(("manifest-file:section-offsets-differ".into(), format!("{:?}/{:?} vs {:?}/{:?}", back.index_section, back.transaction_section, m.index_section, m.transaction_section)));
+    }
+    // index section
+    let loc = ManifestLocation { version: back.version, path: path.clone(), size: None, naming_scheme: ManifestNamingScheme::V2, e_tag: None };
+    let idx_back = read_manifest_indexes(store, &loc, &back).await.map_err(|e| ("manifest-file:index-read-error".to_string(), e.to_string()))?;
+    if idx_back != indices.clone().unwrap_or_default() {
+        return Err(("manifest-file:indices-differ".into(), format!("{} written, {} read", indices.map(|i| i.len()).unwrap_or(0), idx_back.len())));
+    }
+    let _ = tname;
+    Ok(())
+}
+
+async fn rt_deletion(rng: &mut Rng, store: &ObjectStore) -> Result<&'static str, Fail> {
+    let base = Path::from("c32del");
+    let n = match rng.below(4) {
+        0 => rng.urange(1, 10),
+        1 => rng.urange(10, 300),
+        _ => rng.urange(1, 3000),
+    };
+    let mut set = BTreeSet::new();
+    while set.len() < n {
+        set.insert(match rng.below(5) {
+            0 => u32::MAX - rng.below(1000) as u32,
+            1 => rng.below(70_000) as u32,
+            _ => rng.below(5_000_000) as u32,
+        });
+    }
+    let (kind, dv) = if rng.bool() {
+        ("arrow-array", DeletionVector::Set(set.iter().copied().collect()))
+    } else {
+        ("roaring-bitmap", DeletionVector::Bitmap(set.iter().copied().collect()))
+    };
+    let frag = g_u64(rng);
+    let rv = g_u64(rng) >> 1;
+    let df = write_deletion_file(&base, frag, rv, &dv, store)
+        .await
+        .map_err(|e| (format!("deletion-file:{kind}:write-error"), e.to_string()))?
+        .ok_or_else(|| (format!("deletion-file:{kind}:no-file-for-deletions"), String::new()))?;
+    let want_type = if kind == "arrow-array" { DeletionFileType::Array } else { DeletionFileType::Bitmap };
+    if df.file_type != want_type || df.read_version != rv || df.num_deleted_rows != Some(set.len()) {
+        return Err((format!("deletion-file:{kind}:descriptor-wrong"), format!("{df:?}")));
+    }
+    let back = read_deletion_file(frag, &df, &base, store).await.map_err(|e| (format!("deletion-file:{kind}:read-error"), e.to_string()))?;
+    let got: BTreeSet<u32> = back.iter().collect();
+    if got != set || back.len() != set.len() {
+        return Err((format!("deletion-file:{kind}:rows-differ"), format!("{} written, {} read", set.len(), got.len())));
+    }
+    // the descriptor itself survives the fragment protobuf
+    let mut f = Fragment::new(frag);
+    f.deletion_file = Some(df.clone());
+    let fb = Fragment::try_from(pb::DataFragment::decode(&pb::DataFragment::from(&f).encode_to_vec()[..]).unwrap()).map_err(|e| ("deletion-file:descriptor-try_from".to_string(), e.to_string()))?;
+    if fb.deletion_file != Some(df) {
+        return Err((format!("deletion-file:{kind}:descriptor-roundtrip"), String::new()));
+    }
+    // NoDeletions writes nothing
+    if write_deletion_file(&base, frag, rv, &DeletionVector::NoDeletions, store).await.map_err(|e| ("deletion-file:none:write-error".to_string(), e.to_string()))?.is_some() {
+        return Err(("deletion-file:none:file-written".into(), String::new()));
+    }
+    Ok(kind)
+}
+
+thread_local! {
+    static RT: tokio::runtime::Runtime = tokio::runtime::Builder::new_current_thread().enable_all().build().unwrap();
+    static STORE: ObjectStore = ObjectStore::memory();
+}
+
+// ------------------------------------------------------------------------------------------
+
+const KINDS: u64 = 10;
+
+fn one_case(report: &Report, sink: &Sink, i: u64) {
+    let mut rng = Rng::for_case(report.seed, i);
+    let kind = i % KINDS;
+    let (label, res): (String, Result<Result<(), Fail>, String>) = match kind {
+        0 => ("fragment".into(), guarded(|| rt_fragment(&mut rng))),
+        1 => ("index".into(), guarded(|| rt_index(&mut rng))),
+        2 | 3 => {
+            let which = i / KINDS * 2 + (kind - 2);
+            let r = guarded(|| rt_transaction(&mut rng, which));
+            match r {
+                Ok(Ok((n, fails))) => {
+                    for (sig, what) in fails {
+                        sink.violation_lazy(&sig, &what, || json!({"seed": report.seed as i64, "case": i, "detail": what, "replay": format!("e_sets C32 --seed {} --case {i}", report.seed as i64)}));
+                    }
+                    (format!("transaction:{n}"), Ok(Ok(())))
+                }
+                Ok(Err(e)) => ("transaction".into(), Ok(Err(e))),
+                Err(p) => (format!("transaction:{}", g_operation(&mut Rng::new(0), which).0), Err(p)),
+            }
+        }
+        4 => ("manifest".into(), guarded(|| rt_manifest_pb(&mut rng))),
+        5 => ("rowids".into(), guarded(|| rt_rowids(&mut rng))),
+        6 => ("versions".into(), guarded(|| rt_versions(&mut rng))),
+        7 => ("memwal+refs".into(), guarded(|| rt_memwal(&mut rng).and_then(|_| rt_refs(&mut rng)))),
+        8 => ("manifest-file".into(), guarded(|| RT.with(|rt| STORE.with(|st| rt.block_on(rt_manifest_file(&mut rng, st, i)))))),
+        _ => {
+            let r = guarded(|| RT.with(|rt| STORE.with(|st| rt.block_on(rt_deletion(&mut rng, st)))));
+            match r {
+                Ok(Ok(k)) => (format!("deletion-file:{k}"), Ok(Ok(()))),
+                Ok(Err(e)) => ("deletion-file".into(), Ok(Err(e))),
+                Err(p) => ("deletion-file".into(), Err(p)),
+            }
+        }
+    };
+    report.count(&format!("roundtrips:{}", label.split(':').next().unwrap()), 1);
+    report.case(Some(hash_of(&(label.clone(), i / (KINDS * N_OPS), rng.next_u64() % 64))));
+    if let Some(n) = label.strip_prefix("transaction:") {
+        report.count(&format!("transaction_variant:{n}"), 1);
+    }
+    if i % 97 == 8 && report.want_sample() {
+        report.sample(json!({"case": i, "kind": label, "outcome": match &res { Ok(Ok(())) => "round trip equal", Ok(Err(_)) => "differs", Err(_) => "panic" }}));
+    }
+    let wit = |d: &str| json!({"seed": report.seed as i64, "case": i, "kind": label, "detail": d, "replay": format!("e_sets C32 --seed {} --case {i}", report.seed as i64)});
+    match res {
+        Ok(Ok(())) => {}
+        Ok(Err((sig, what))) => sink.violation_lazy(&sig, &what, || wit(&what)),
+        Err(p) => sink.violation_lazy(&format!("{label}:panic"), &p, || wit(&p)),
+    }
+}
+
+fn selftest(args: &Args) -> i32 {
+    quiet_panics();
+    let mut a = args.clone();
+    a.prop = "C32-selftest".into();
+    std::env::set_var("VERIF_EVIDENCE_OUT", "/dev/null");
+    let report = Report::new(&a, "exploration", "selftest", (60, 60));
+    let sink = Sink::collecting();
+    CORRUPT_DECODED.store(true, Ordering::Relaxed);
+    for i in 0..400 {
+        one_case(&report, &sink, i);
+    }
+    CORRUPT_DECODED.store(false, Ordering::Relaxed);
+    let caught = sink.has_prefix("fragment:field-lost:");
+    println!("SELFTEST corrupted-decoded-fragment caught={caught}");
+    if caught {
+        println!("SELFTEST C32 ok");
+        0
+    } else {
+        println!("SELFTEST C32 FAILED");
+        2
+    }
+}
+
+pub fn run(args: &Args) -> i32 {
+    if is_selftest(args) {
+        return selftest(args);
+    }
+    quiet_panics();
+    arm_watchdog(args.tier.pick(300, 1500));
+    let rule = "Seeded random well-formed values, ten kinds in rotation: Fragment (data files, deletion file descriptor, inline/external row id and version metadata), IndexMetadata, Transaction for each of the 15 Operation variants (two per rotation), Manifest through pb, RowIdSequence bytes, RowDatasetVersionSequence bytes + meta, MemWAL index details + tag/branch JSON, Manifest written with write_manifest (with index and transaction sections) and read back from an in-memory object store, deletion vectors written as Arrow file (Set) and Roaring bitmap and read back. Values exercise optional fields, empty collections, ids at u32/u64 limits, nanosecond timestamps, detached versions, up to 60 version runs. Oracle: decode(encode(x)) compared field by field (vector order included; Schema metadata included). Distinct = (kind or operation variant, sub-stream).";
+    let report = Report::new(args, "exploration", rule, (40, 480)).with_min_nontrivial(200);
+    let sink = Sink::to_report(&report);
+    if let Some(c) = args.extra.get("case").and_then(|c| c.parse::<u64>().ok()) {
+        one_case(&report, &sink, c);
+        sink.flush();
+        return report.finish();
+    }
+    let max_cases = args.tier.pick(400_000u64, 20_000_000);
+    fan_out(n_threads(), 0, max_cases, &|| report.time_left(), &|i| one_case(&report, &sink, i));
+    for n in ["Append", "Delete", "Overwrite", "CreateIndex", "Rewrite", "DataReplacement", "Merge", "Restore", "ReserveFragments", "Update", "Project", "UpdateConfig", "UpdateMemWalState", "Clone", "UpdateBases"] {
+        if report.counter(&format!("transaction_variant:{n}")) == 0 && report.n_violations() == 0 && report.n_evaluations() > 1000 {
+            report.set(&format!("note_variant_without_clean_roundtrip:{n}"), json!(true));
+        }
+    }
+    report.assume("values are canonical where the format has no distinct encoding: Some(\"\")/Some(empty) are not generated for tag, transaction_file, initial_bases; index created_at has millisecond precision; timestamp 0 means unset");
+    sink.flush();
+    report.finish()
+}
+
+#[allow(dead_code)]
+fn _unused(_: Value) {}
